@@ -424,7 +424,8 @@ def opWin (p : WinTree.Id) (r : Rect) (flags : Nat := 0) : St → Option St := f
   | .ok (s', _) => some s'
   | .ub _ => none
 
-def opBind (w : WinTree.Id) (k : Kind) (es : List Entry) : St → Option St := fun s => some (addBinding s w k es).1
+def opBind (w : WinTree.Id) (k : Kind) (es : List Entry) (oneshot : Bool := false) : St → Option St :=
+  fun s => some (addBinding s w k es oneshot).1
 
 def opAct (a : Act) (w : WinTree.Id) : St → Option St := fun s =>
   match doAction s ⟨a, w⟩ with
@@ -555,7 +556,8 @@ inductive Reachable : St → Prop where
   | fresh (lines cols : Int) : Reachable (newSt lines cols)
   | win {st st' : St} {id : WinTree.Id} (p : WinTree.Id) (r : Rect) (a b c d : Bool) :
       Reachable st → newWin st p r a b c d = Res.ok (st', id) → Reachable st'
-  | bind {st : St} (w : WinTree.Id) (k : Kind) (es : List Entry) : Reachable st → Reachable (addBinding st w k es).1
+  | bind {st : St} (w : WinTree.Id) (k : Kind) (es : List Entry) (oneshot : Bool) :
+      Reachable st → Reachable (addBinding st w k es oneshot).1
   | act {st st' : St} (a : Action) : Reachable st → doAction st a = Res.ok st' → Reachable st'
   | flush {st st' : St} : Reachable st → flushSt st = Res.ok st' → Reachable st'
   | key {st st' : St} (ev : Ev) : Reachable st → emitKey Cfg.repaired st ev = Out.ok st' → Reachable st'
@@ -652,7 +654,7 @@ theorem reachable_good {st : St} (h : Reachable st) : AInv st [] := by
       have := newWin_good ih (newWin_alive hn) r a b c d
       rw [hn] at this
       exact this
-    | bind w k es _ ih => exact addBinding_good ih w k es (fun _ _ a _ => actOK_all a)
+    | bind w k es os _ ih => exact addBinding_good ih w k es (fun _ _ a _ => actOK_all a) os
     | act a _ hd ih =>
       have := doAction_safe ih.1 (actOK_all a)
       rw [hd] at this
@@ -932,9 +934,9 @@ theorem stepR_win (p : WinTree.Id) (r : Rect) (flags : Nat) : StepR (opWin p r f
   · next s1 id hn => cases h; exact Reachable.win p r _ _ _ _ hs hn
   · cases h
 
-theorem stepR_bind (w : WinTree.Id) (k : Kind) (es : List Entry) : StepR (opBind w k es) := by
+theorem stepR_bind (w : WinTree.Id) (k : Kind) (es : List Entry) (os : Bool := false) : StepR (opBind w k es os) := by
   intro s s' hs h
-  cases h; exact Reachable.bind w k es hs
+  cases h; exact Reachable.bind w k es os hs
 
 theorem stepR_act (a : Act) (w : WinTree.Id) : StepR (opAct a w) := by
   intro s s' hs h
